@@ -1144,6 +1144,22 @@ pub fn run(opts: &Opts) -> Run {
                 p.must_fail = Some(format!("valid frames followed by a frame with magic number {:#x} (not a skippable frame)", magic));
                 p.decode_all(&gi, expect.len() + 10, None);
             }
+            // a frame of many RLE blocks (a few hundred input bytes, MiBs of content) into a target that is far too small: the
+            // call fails, and what the decoder holds afterwards (the `can=` observable) is what the model says: it stops at the
+            // first 1 MiB step that does not fit instead of decoding the rest of the frame first
+            if i == 0 {
+                let nb = 40usize;
+                let mut rf = vec![0x28, 0xb5, 0x2f, 0xfd, 0x00, 0x38];
+                for k in 0..nb {
+                    let h = ((131072u32) << 3) | (1 << 1) | if k + 1 == nb { 1 } else { 0 };
+                    rf.extend_from_slice(&h.to_le_bytes()[..3]);
+                    rf.push(k as u8);
+                }
+                for room in [1usize, 65_536, 2_000_000] {
+                    p.must_fail = Some(format!("a frame of {} RLE blocks of 128 KiB into a target of {} bytes", nb, room));
+                    p.decode_all(&rf, room, None);
+                }
+            }
             p.must_fail = Some("a frame followed by a truncated skippable frame".into());
             p.decode_all(&trunc_skip, c.original.len() + 10, None);
             // the Vec front end: spare capacity exact / too small / with existing content
